@@ -614,7 +614,51 @@ let run_life kvs _ =
     Printf.sprintf "res=%s closed=%s boundms=%d goroutines=%s" (if res = [] then "any" else String.concat "," res) (if !st.l_closed then "1" else "0") bound gor
   end
 
+(* ---- suite pools: the observed Get / Put / Use events drive Model/Pools.v ---- *)
+let run_pools kvs ikvs =
+  let tr = List.filter_map (fun x -> match String.split_on_char ':' x with
+      | [c; e; o] -> Some (int_of_string c, int_of_string e, int_of_string o) | _ -> None)
+      (String.split_on_char ',' (get_or ikvs "ptrace" "-")) in
+  let st = ref pinit and err = ref "" and uses = ref 0 and reuse = ref 0 in
+  let seen = Hashtbl.create 8 in
+  let fail m = if !err = "" then err := m in
+  let apply op what = match pstep !st op with
+    | Some (s, us) -> st := s; us
+    | None -> fail what; [] in
+  List.iter (fun (c, e, o) ->
+    if !err = "" then begin
+      let cn = nat_of_int c and on = nat_of_int o in
+      match e with
+      | 1 -> (* Get: the pool handed o to connection c *)
+        if Hashtbl.mem seen o then incr reuse;
+        Hashtbl.replace seen o true;
+        ignore (apply (PStart (cn, on)) (Printf.sprintf "get-of-an-object-somebody-holds:c%d:o%d" c o))
+      | 2 -> (* Put: only the holder may return it (an object created by this connection and never read through is first seen here) *)
+        if not (Hashtbl.mem seen o) then begin Hashtbl.replace seen o true; ignore (apply (PStart (cn, on)) "fresh-object") end;
+        (match (!st.p_conns cn).p_fr with
+         | Some h when int_of_nat h = o -> ignore (apply (PEof cn) "put")
+         | _ -> fail (Printf.sprintf "put-by-non-holder:c%d:o%d" c o))
+      | 3 -> (* a Read went through object o (0 = the raw frame reader) *)
+        if o = 0 then begin
+          (match (!st.p_conns cn).p_lr with
+           | Some h -> fail (Printf.sprintf "model-expects-read-through-o%d:c%d" (int_of_nat h) c)
+           | None -> ignore (apply (PRead cn) "read"))
+        end else begin
+          incr uses;
+          if not (Hashtbl.mem seen o) then begin Hashtbl.replace seen o true; ignore (apply (PStart (cn, on)) "fresh-object") end;
+          let us = apply (PRead cn) "read" in
+          (match us with
+           | [Use (c', o')] when int_of_nat c' = c && int_of_nat o' = o -> ()
+           | _ -> fail (Printf.sprintf "use-of-an-object-not-held:c%d:o%d" c o));
+          (* the proved invariant, checked on the replayed state: nobody else holds it *)
+          ignore (apply (PReadEnd cn) "readend")
+        end
+      | _ -> ()
+    end) tr;
+  Printf.sprintf "replay=%s uses=%d reuses=%d" (if !err = "" then "ok" else !err) !uses !reuse
+
 let suites : (string * ((string * string) list -> (string * string) list -> string)) list = [
+  "pools", run_pools;
   "life", run_life;
   "netconn", run_netconn;
   "wsjson", run_wsjson;
